@@ -55,17 +55,17 @@ func c09Record(ch *c09Chan, m *c09Msg, index, epoch uint64) channel.Record {
 		flags |= 4
 	}
 	p = append(p, flags, m.Setting, 0, ch.ID.Type)
-	p = binary.BigEndian.AppendUint32(p, 0)  // expire
-	p = binary.BigEndian.AppendUint64(p, 0)  // client seq
-	p = binary.BigEndian.AppendUint64(p, 0)  // stream id
+	p = binary.BigEndian.AppendUint32(p, 0) // expire
+	p = binary.BigEndian.AppendUint64(p, 0) // client seq
+	p = binary.BigEndian.AppendUint64(p, 0) // stream id
 	p = binary.BigEndian.AppendUint32(p, uint32(m.Timestamp))
 	p = binary.BigEndian.AppendUint64(p, c09FNV(m.Payload))
-	p = c09AppendSized(p, nil)                 // msg key
-	p = c09AppendSized(p, []byte(m.ClientNo))  // client msg no
-	p = c09AppendSized(p, nil)                 // stream no
-	p = c09AppendSized(p, []byte(ch.ID.ID))    // channel id
-	p = c09AppendSized(p, nil)                 // topic
-	p = c09AppendSized(p, []byte(m.From))      // from uid
+	p = c09AppendSized(p, nil)                // msg key
+	p = c09AppendSized(p, []byte(m.ClientNo)) // client msg no
+	p = c09AppendSized(p, nil)                // stream no
+	p = c09AppendSized(p, []byte(ch.ID.ID))   // channel id
+	p = c09AppendSized(p, nil)                // topic
+	p = c09AppendSized(p, []byte(m.From))     // from uid
 	p = c09AppendSized(p, m.Payload)
 	p = append(p, 'w', 'k', 't', 's')
 	p = binary.BigEndian.AppendUint64(p, uint64(m.TS))
